@@ -33,6 +33,19 @@ func TestSweep(t *testing.T) {
 			}
 		}
 	}
+	// the same queries with the element types interleaved in rotating orders per depth pair
+	// (the scale of one type must not depend on which type asked before)
+	for l := 1; l <= 64; l++ {
+		for h := l; h <= 64; h++ {
+			for k := range IntTypes {
+				tn := IntTypes[(k*7+h+3*l)%len(IntTypes)]
+				Oracle.One(t, env, rec, "sweep", &Case{B: h, T: tn, H: h, L: l})
+			}
+			for k := len(IntTypes) - 1; k >= 0; k-- {
+				Oracle.One(t, env, rec, "sweep", &Case{B: h, T: IntTypes[k], H: h, L: l})
+			}
+		}
+	}
 	rec.Note("boundary_values_per_depth", len(vs)+len(us))
 	rec.Exhaustive("all 64 depths x all int64/uint64 within +-3 of 0, +-2^k and the type bounds; Scale over all pairs h>=l in 1..64 x 11 integer types", true)
 }
